@@ -51,7 +51,10 @@ def build(patterns):
         ml = []
         for i, k in enumerate(pat):
             s, e = SPANS[k]
-            if i % 3 == 2:
+            if i % 4 == 3:
+                # a caption that displays nothing: a blank text node, or only an opened and closed style
+                nodes = [CaptionNode.create_text(" ")] if (i // 4) % 2 == 0 else [CaptionNode.create_style(True, {"italics": True}), CaptionNode.create_style(False, {"italics": True})]
+            elif i % 3 == 2:
                 nodes = [
                     CaptionNode.create_style(True, {"italics": True}),
                     CaptionNode.create_text(f"{lang}{i}a"),
